@@ -234,6 +234,9 @@ package evaluator
 //@ func evaluator.appendStackTrace(e, src) res
 //@   requires e != nil && src != nil
 //@   ensures  res == e
+// C19: the one error object shared by every evaluation of the process (the value of `_`, also the abstract
+// properties of Either) must not accumulate stack traces
+//@   ensures_in C19: object.BuiltInNotImplemented.StackTrace == old(object.BuiltInNotImplemented.StackTrace)
 //@   assigns  EC
 //
 // ---- C12: one truthiness rule, exactly one branch, short-circuit -------------------------------
